@@ -574,6 +574,15 @@ def dec_prog(src, fn_name, chk_fn, result_var):
             if " != " in t:
                 a, b = t.split(" != ")
                 return "CNe (%s) (%s)" % (expr(a), expr(b))
+            if " == " in t:
+                a, b = t.split(" == ")
+                return "CEq (%s) (%s)" % (expr(a), expr(b))
+            if " <= " in t:
+                a, b = t.split(" <= ")
+                return "CLe (%s) (%s)" % (expr(a), expr(b))
+            if " >= " in t:
+                a, b = t.split(" >= ")
+                return "CLe (%s) (%s)" % (expr(b), expr(a))
             if " < " in t:
                 a, b = t.split(" < ")
                 return "CLt (%s) (%s)" % (expr(a), expr(b))
